@@ -34,6 +34,7 @@ def pick_K(rng, ks):
 class CodecInfo:
     def __init__(self, name, tab):
         self.name = name
+        self.tab = tab
         self.bits = tab["bits"]
         self.items = list(tab["items"])
         self.try_ascii = tab["try_ascii"]
